@@ -115,6 +115,19 @@ func checkOne(src string, want *gen.Outcome, names []string) (sig, detail string
 	if err != nil {
 		return "unmarshal-error", err.Error(), st
 	}
+	// the same bytes (and other programs' bytes) may be loaded again before this copy is run: each load is
+	// a tree of its own
+	var code2b *compiler.Code
+	if p := safely(func() { code2b, err = compiler.UnmarshalCode(b1) }); p != "" || err != nil {
+		return "unmarshal-error:second-load", fmt.Sprint(p, err), st
+	}
+	if ob := otherBytes(); ob != nil {
+		for _, x := range ob {
+			if p := safely(func() { _, err = compiler.UnmarshalCode(x) }); p != "" || err != nil {
+				return "unmarshal-error:other-program", fmt.Sprint(p, err), st
+			}
+		}
+	}
 	if p := safely(func() { b2, err = compiler.MarshalCode(code2) }); p != "" || err != nil {
 		return "remarshal-failed", fmt.Sprint(p, err), st
 	}
@@ -124,6 +137,9 @@ func checkOne(src string, want *gen.Outcome, names []string) (sig, detail string
 	// side by side execution with identical fresh globals
 	r1 := rz.Exec(c1.Code, rz.Opts{GlobalNames: names})
 	r2 := rz.Exec(code2, rz.Opts{GlobalNames: names})
+	if r2b := rz.Exec(code2b, rz.Opts{GlobalNames: names}); r2b.Result != r2.Result || r2b.ErrText != r2.ErrText || r2b.Out != r2.Out || (r2b.GoPanic != "") != (r2.GoPanic != "") {
+		return "reloaded-copies-behave-differently", fmt.Sprintf("two loads of the same bytes: first %s / %q / %q, second %s / %q / %q %s", r2.Result, r2.ErrText, r2.Out, r2b.Result, r2b.ErrText, r2b.Out, mon.Truncate(r2b.GoPanic, 300)), st
+	}
 	st.executed = true
 	if r1.Err != "" {
 		st.errRun = true
@@ -221,6 +237,28 @@ func boundarySources() []string {
 // otherCode: two small unrelated programs (one shorter, one longer than most), compiled once per process.
 var otherCodes []*compiler.Code
 
+// otherBytes: the marshalled forms of the other programs (functions with the same ids and signatures as
+// many generated ones).
+var otherBlobs [][]byte
+
+func otherBytes() [][]byte {
+	if otherBlobs == nil {
+		for _, c := range otherCode() {
+			if b, err := compiler.MarshalCode(c); err == nil {
+				otherBlobs = append(otherBlobs, append([]byte(nil), b...))
+			}
+		}
+		for _, src := range []string{"func f3() { return 1 }\nfunc f6(p7, p8, p9) { return 2 }\nf3()\n", "cl5 := func() { return 3 }\nfunc f2(p3=1) { return p3 }\n[cl5(), f2()]\n"} {
+			if c := rz.Compile(src, rz.Opts{}); c.Code != nil {
+				if b, err := compiler.MarshalCode(c.Code); err == nil {
+					otherBlobs = append(otherBlobs, append([]byte(nil), b...))
+				}
+			}
+		}
+	}
+	return otherBlobs
+}
+
 func otherCode() []*compiler.Code {
 	if otherCodes == nil {
 		for _, src := range []string{"1 + 6\n", "func zz(a, b=2) { return [a, b, \"" + strings.Repeat("pad", 400) + "\"] }\nzz(1)\n"} {
@@ -249,6 +287,12 @@ func worker(kind string, data json.RawMessage) any {
 			"f := func(s=\"\", t=\"2.0\", n=0, m=-1, ok=false, z=3.0) { return [s, t, n, m, ok, 10 / z, type(z), type(n)] }\n[f(), f(\"x\")]\n",
 			"x := [2.0, 1.0, 0.0, -3.0, 1e0, 4.0e0]\ny := x.map(func(v) { return [type(v), 7 / (v + 10)] })\n[y, {\"k\": 6.0}, 9 / 3.0, type(6.0)]\n",
 			"func outer(p=5.0) { inner := func(q=2.0, r=8) { return [p / q, r / q, type(q), type(r)] }; return inner() }\nouter()\n",
+			// closures nested three and four levels that use variables of their grandparents while every
+			// ancestor is still active (the region that works), with more and fewer locals in between
+			"func a() { x := 41; func b() { func c() { return x + 1 }; return c() }; return b() }\na()\n",
+			"func a(p, q) { x := 1; y := 2; z := 3; w := 4; func b() { m := 0; func c() { return [p, q, x, y, z, w] }; return c() }; return b() }\na(7, 8)\n",
+			"func a() { x := 5; return [1, 2].map(func(i) { return [3].map(func(j) { return func() { return x + i + j }() }) }) }\na()\n",
+			"func a() { v1 := 1; v2 := 2; v3 := 3; func b() { func c() { func d() { return v1 + v2 + v3 }; return d() }; return c() }; return b() }\na()\n",
 			// nil defaults at every position relative to other defaults (a nil default still counts as "no
 			// default" for the required-argument count — recorded finding D12 — so every call passes enough)
 			"func join(items, sep=\", \", conv=nil) { return [items, sep, conv] }\n[join([1, 2], \"; \"), join([1], \"-\", 3)]\n",
